@@ -415,7 +415,18 @@ func (x *XRefParser) parseXRefStream() (*XRefTable, error) {
 		if !ok {
 			return nil, fmt.Errorf("invalid /W element type: %T", val)
 		}
+		// A field is a big-endian integer of at most 8 bytes
+		if intVal < 0 || intVal > 8 {
+			return nil, fmt.Errorf("invalid /W element: %d", intVal)
+		}
 		w[i] = int(intVal)
+	}
+	rowWidth := w[0] + w[1] + w[2]
+	if rowWidth == 0 {
+		return nil, fmt.Errorf("invalid /W array: all widths are zero")
+	}
+	if len(index)%2 != 0 {
+		return nil, fmt.Errorf("invalid /Index array length: %d", len(index))
 	}
 
 	// Parse entries from binary data
@@ -430,6 +441,10 @@ func (x *XRefParser) parseXRefStream() (*XRefTable, error) {
 	for i := 0; i < len(index); i += 2 {
 		firstObjNum := index[i]
 		count := index[i+1]
+		// The subsection cannot hold more entries than there is data for
+		if firstObjNum < 0 || count < 0 || count > (len(data)-dataOffset)/rowWidth {
+			return nil, fmt.Errorf("invalid /Index subsection [%d %d] for %d bytes of data", firstObjNum, count, len(data)-dataOffset)
+		}
 
 		for j := 0; j < count; j++ {
 			objNum := firstObjNum + j
